@@ -265,22 +265,35 @@ impl<'input> fmt::Debug for Document<'input> {
             depth: usize,
             f: &mut fmt::Formatter,
         ) -> Result<(), fmt::Error> {
-            for child in parent.children() {
-                if child.is_element() {
-                    writeln_indented!(depth, f, "Element {{");
-                    writeln_indented!(depth, f, "    tag_name: {:?}", child.tag_name());
-                    print_into_iter("attributes", child.attributes(), depth + 1, f)?;
-                    print_into_iter("namespaces", child.namespaces(), depth + 1, f)?;
+            // An explicit stack is used instead of recursion,
+            // so that deeply nested documents cannot exhaust the call stack.
+            let mut stack = alloc::vec![(parent.children(), depth)];
+            while let Some((children, depth)) = stack.last_mut() {
+                let depth = *depth;
+                match children.next() {
+                    Some(child) if child.is_element() => {
+                        writeln_indented!(depth, f, "Element {{");
+                        writeln_indented!(depth, f, "    tag_name: {:?}", child.tag_name());
+                        print_into_iter("attributes", child.attributes(), depth + 1, f)?;
+                        print_into_iter("namespaces", child.namespaces(), depth + 1, f)?;
 
-                    if child.has_children() {
-                        writeln_indented!(depth, f, "    children: [");
-                        print_children(child, depth + 2, f)?;
-                        writeln_indented!(depth, f, "    ]");
+                        if child.has_children() {
+                            writeln_indented!(depth, f, "    children: [");
+                            stack.push((child.children(), depth + 2));
+                        } else {
+                            writeln_indented!(depth, f, "}}");
+                        }
                     }
-
-                    writeln_indented!(depth, f, "}}");
-                } else {
-                    writeln_indented!(depth, f, "{:?}", child);
+                    Some(child) => {
+                        writeln_indented!(depth, f, "{:?}", child);
+                    }
+                    None => {
+                        stack.pop();
+                        if !stack.is_empty() {
+                            writeln_indented!(depth - 2, f, "    ]");
+                            writeln_indented!(depth - 2, f, "}}");
+                        }
+                    }
                 }
             }
 
